@@ -1,10 +1,11 @@
 import FedjaxVerif.Model.Proto
 import FedjaxVerif.Handlers.C03
+import FedjaxVerif.Handlers.C02
 
 open FedjaxVerif
 
 def handlers : List (String → List Val → Option Val) :=
-  [Handlers.C03.handle]
+  [Handlers.C03.handle, Handlers.C02.handle]
 
 def answer (line : String) : String :=
   match parseLine line with
